@@ -53,6 +53,7 @@ type RunConfig struct {
 	LateResultPm, ReleasePm, ApiPm, HoldPm, BurstPm int
 	CancelAt       int  `json:"cancel_at,omitempty"`
 	ProofPm        int  `json:"proof_pm,omitempty"`
+	LenientNilBlock bool `json:"lenient_nil_block,omitempty"`
 }
 
 type Limits struct {
